@@ -21,13 +21,34 @@
    runs before anything is recorded; panic(p) touches nothing), so it is dropped from the
    ghost list of executed actions: [hexec] stays "the actions that took effect". *)
 From Coq Require Import List ZArith Bool.
+From GZgen Require Import C04Consts.
 From GZ Require Import C04.Model.
 Import ListNotations.
 Open Scope Z_scope.
 
-Definition recover_code : Z := 500.          (* http.StatusInternalServerError *)
+(* THE REPLY IS A PARAMETER [rs]: the actions the RecoverHandler performs on the writer it was
+   given (header operations, WriteHeader, Write), as regenerated from the tree
+   (C04Consts.recover_reply, established by experiment: tools/c04consts.py); today
+   [WriteHeader 500].  All that the theorems need of it is [safe_reply]: it contains no panic,
+   no context check and no invalid status code (GenProofs.recover_reply_is_safe). *)
+Definition safe_act (a : act) : bool :=
+  match a with
+  | APanic _ | ACheckCtx => false
+  | AWriteHeader c => negb (bad_code c)
+  | _ => true
+  end.
 
-Definition recover_script : list act := [AWriteHeader recover_code].
+Definition safe_reply (rs : list act) : bool := forallb safe_act rs.
+
+(* the regenerated reply (C04Consts.recover_reply_ops) as handler actions *)
+Definition decode_op (op : Z * Z * Z * list Z) : act :=
+  let '(tag, a, b, bs) := op in
+  if tag =? 0 then ADel a else if tag =? 1 then ASet a b else if tag =? 2 then AWriteHeader a else AWrite bs.
+
+Definition recover_reply : list act := map decode_op recover_reply_ops.
+
+Section Reply.
+Variable recover_script : list act.
 
 Definition rec_fix (s : state) : state :=
   match hst s with
@@ -154,3 +175,5 @@ Fixpoint xrec_cut (w : rwriter) (acts : list act) : list act :=
     | _ => a :: xrec_cut w' r
     end
   end.
+
+End Reply.
